@@ -118,7 +118,7 @@ def oracle(case, obs) -> List[str]:
     c = obs["canon"]
     if isinstance(c, dict):
         return [f"analysis raised {c['raises']}"]
-    rows = obs["rows"]
+    rows = C.relink(obs["rows"])      # links by correlation id, not the implementation's column
     p = case["params"]
     by = {x[0]: x for x in rows}
     # tree by time containment per host thread + links, independent of the implementation's stack columns
